@@ -13,6 +13,10 @@ remove such a write leave the list unchanged):
   class-object|<file>|<Class>.<attr>|<how> the same for a class-level mutable (list/dict/set/instance) that __init__ does not shadow
                                            how = "unshadowed" plus the mutations seen through self.<attr>/<Class>.<attr>
   class-write|<file>|<scope>|<Class>.<attr> an assignment to an attribute of a class object (cls.x = / ClassName.x =)
+  default-arg|<file>|<function>|<param>:<kind>  a parameter default that is a mutable object created once, at definition time
+                                           (list/dict/set literal or comprehension, or any call other than an immutable constructor)
+  (every mutation `how` carries where it happens: @def = module / class body, run once at import; @fn = inside a function, also through
+   a local alias `h = cls.table; h[k] = v` — a module/class-level container written @fn is lazy initialisation or a cache)
   antlr|<file>|<Class>.<attr>              class-level objects of the generated lexers/parsers (ATN, DFA list, context cache): shared by
                                            all parser instances and mutated by the antlr4 runtime
 
@@ -29,6 +33,8 @@ WATCH_PREFIX = ("sys.set", "os.chdir", "os.putenv", "os.unsetenv", "os.umask", "
                 "signal.signal", "signal.alarm", "random.seed", "gc.disable", "gc.enable", "gc.set_threshold", "gc.freeze", "faulthandler.",
                 "sys.path.", "sys.modules", "resource.setrlimit", "decimal.setcontext", "decimal.getcontext", "socket.setdefaulttimeout",
                 "tempfile.tempdir", "builtins.")
+IMMUTABLE_CALLS = {"frozenset", "tuple", "str", "int", "float", "bool", "bytes", "Path", "PurePath", "PurePosixPath", "object", "compile", "field",
+                   "TypeVar", "range", "SsbOpCode", "SsbRoutineType"}
 MUTATORS = {"append", "extend", "insert", "update", "clear", "pop", "popitem", "add", "remove", "discard", "setdefault", "sort", "reverse",
             "acquire", "release", "allocate"}
 
@@ -64,6 +70,9 @@ class _Scan(ast.NodeVisitor):
         self.rel, self.module_names, self.out, self.muts = rel, module_names, out, muts
         self.scope: list[str] = []
         self.cls: list[str] = []
+        self.fn_depth = 0
+        self.alias: dict[str, str] = {}
+        self.class_obj_names: set[str] = set()
 
     def where(self) -> str:
         return ".".join(self.scope) or "<module>"
@@ -82,8 +91,18 @@ class _Scan(ast.NodeVisitor):
         self.scope.pop(); self.cls.pop()
 
     def visit_FunctionDef(self, node: ast.FunctionDef) -> None:
+        a = node.args
+        pos = a.posonlyargs + a.args
+        for arg, d in list(zip(pos[len(pos) - len(a.defaults):], a.defaults)) + [(x, y) for x, y in zip(a.kwonlyargs, a.kw_defaults) if y is not None]:
+            k = is_mutable_value(d)
+            if k is not None and not (isinstance(d, ast.Call) and (dotted(d.func) or "?").split(".")[-1] in IMMUTABLE_CALLS):
+                self.out.add(f"default-arg|{self.rel}|{'.'.join(self.scope + [node.name])}|{arg.arg}:{k}")
         self.scope.append(node.name)
+        self.fn_depth += 1
+        saved = dict(self.alias)
         self.generic_visit(node)
+        self.alias = saved
+        self.fn_depth -= 1
         self.scope.pop()
 
     visit_AsyncFunctionDef = visit_FunctionDef
@@ -92,14 +111,28 @@ class _Scan(ast.NodeVisitor):
         for n in node.names:
             self.out.add(f"global|{self.rel}|{self.where()}|{n}")
 
+    def _canon(self, name: str) -> str | None:
+        """module-level name, or Class.attr for self.attr / cls.attr / Class.attr / a bare class-body name; through local aliases"""
+        parts = name.split(".")
+        head = parts[0]
+        if head in self.alias and self.fn_depth > 0:
+            return self.alias[head]
+        if head in self.module_names:
+            return head
+        if head in ("self", "cls") and len(parts) > 1 and self.cls:
+            return self.cls[-1] + "." + parts[1]
+        if head in self.class_names and len(parts) > 1:
+            return head + "." + parts[1]
+        if self.cls and self.fn_depth == 0 and (self.cls[-1] + "." + head) in self.class_obj_names:
+            return self.cls[-1] + "." + head
+        return None
+
     def _mut(self, name: str | None, how: str) -> None:
         if name is None:
             return
-        head = name.split(".")[0]
-        if head in self.module_names and (len(self.scope) > 0 or how != "assign"):
-            self.muts.setdefault((self.rel, head), set()).add(how)
-        if head in ("self", "cls") and "." in name and self.cls:
-            self.muts.setdefault((self.rel, self.cls[-1] + "." + name.split(".")[1]), set()).add(how)
+        c = self._canon(name)
+        if c is not None:
+            self.muts.setdefault((self.rel, c), set()).add(how + ("@fn" if self.fn_depth > 0 else "@def"))
 
     def visit_Call(self, node: ast.Call) -> None:
         f = dotted(node.func)
@@ -108,7 +141,7 @@ class _Scan(ast.NodeVisitor):
                 self.out.add(f"call|{self.rel}|{self.where()}|{f}")
             if isinstance(node.func, ast.Attribute) and node.func.attr in MUTATORS:
                 self._mut(dotted(node.func.value), "method:" + node.func.attr)
-            if isinstance(node.func, ast.Name) and self.module_names.get(f, "").startswith("instance:") and self.scope:
+            if isinstance(node.func, ast.Name) and self.module_names.get(f, "").startswith("instance:") and self.fn_depth > 0:
                 self._mut(f, "call")
         self.generic_visit(node)
 
@@ -143,11 +176,18 @@ class _Scan(ast.NodeVisitor):
     def visit_Assign(self, node: ast.Assign) -> None:
         for t in node.targets:
             self._target(t, "assign")
+        if self.fn_depth > 0 and len(node.targets) == 1 and isinstance(node.targets[0], ast.Name):
+            d = dotted(node.value)
+            c = self._canon(d) if d is not None else None
+            if c is not None and (c in self.module_names or c in self.class_obj_names):
+                self.alias[node.targets[0].id] = c           # h = cls.table  /  t = module_table
+            else:
+                self.alias.pop(node.targets[0].id, None)
         self.generic_visit(node)
 
     def visit_AugAssign(self, node: ast.AugAssign) -> None:
         self._target(node.target, "augassign")
-        if isinstance(node.target, ast.Name) and node.target.id in self.module_names and self.scope:
+        if isinstance(node.target, ast.Name) and node.target.id in self.module_names and self.fn_depth > 0:
             self._mut(node.target.id, "augassign")
         self.generic_visit(node)
 
@@ -220,7 +260,9 @@ def inventory(repo: str) -> list[str]:
                                 if isinstance(t, ast.Attribute) and isinstance(t.value, ast.Name) and t.value.id == "self":
                                     shadowed.add(n.name + "." + t.attr)
         muts: dict[tuple[str, str], set[str]] = {}
-        _Scan(rel, module_names, out, muts).visit(tree)
+        sc = _Scan(rel, module_names, out, muts)
+        sc.class_obj_names = set(class_objs)
+        sc.visit(tree)
         for (r, name), hows in muts.items():
             if name in module_names:
                 out.add(f"module-object|{r}|{name}:{module_names[name]}|{','.join(sorted(hows))}")
@@ -238,6 +280,27 @@ def lean_source(items: list[str]) -> str:
     return ("/- GENERATED by harness/shared_inventory.py from the current /repo on every run of ./check C12 — do not edit.\n"
             "   Writes to process-wide state found in the implementation's source (see harness/shared_inventory.py). -/\n"
             "namespace ESV.Gen\n\ndef sharedWrites : List String := [\n  " + body + "]\n\nend ESV.Gen\n")
+
+
+def write_lean(items: list[str]) -> bool:
+    """(re)write lean/ESV/Gen/Shared.lean; True if it changed"""
+    from . import core
+    path = os.path.join(core.LEAN, "ESV", "Gen", "Shared.lean")
+    src = lean_source(items)
+    old = open(path).read() if os.path.exists(path) else None
+    if old != src:
+        with core._Lock():
+            with open(path, "w") as fh:
+                fh.write(src)
+        return True
+    return False
+
+
+def diff_with_pinned(drv, items: list[str]) -> tuple[list[str], list[str], list[str]]:
+    """-> (pinned keys of lean/ESV/Cache/Shared.lean, entries of the current source not in it, pinned entries no longer in the source)"""
+    rep = drv.batch([{"op": "cache.shared"}])[0]
+    pinned = [x[0] for x in rep.get("shared", [])]
+    return pinned, [x for x in items if x not in pinned], [x for x in pinned if x not in items]
 
 
 if __name__ == "__main__":
